@@ -80,13 +80,25 @@ theorem trans_hist {cfg : Cfg} {c : Nat} {st : Caller} {w : Shared} {p : Caller 
     · simp at ht
     · split at ht
       · simp at ht; subst ht
-        unfold HistOK at h ⊢
-        simp [startCall, emit, linkUp_append, upStep]
         exact h
       · split at ht
         · simp at ht; subst ht
           simp [HistOK, finish, emit, mark, linkUp_append, upStep]
         · simp at ht
+  · rename_i wk hph
+    unfold transReadying at ht
+    split at ht
+    · simp at ht
+    · split at ht
+      · simp at ht
+      · simp at ht; subst ht
+        unfold HistOK at h ⊢
+        simp [startCall, emit, popScript, linkUp_append, upStep]
+        exact h
+      · simp at ht; subst ht
+        unfold HistOK at h ⊢
+        simp [finish, emit, popScript, linkUp_append, upStep]
+        exact h
   · simp at ht
 
 theorem loop_hist {cfg : Cfg} {c : Nat} (n : Nat) {st : Caller} {w : Shared} (h : HistOK cfg w) :
@@ -103,6 +115,8 @@ theorem loop_hist {cfg : Cfg} {c : Nat} (n : Nat) {st : Caller} {w : Shared} (h 
 theorem stepS_hist {cfg : Cfg} {s : State} (op : Op) (h : HistOK cfg s.sh) : HistOK cfg (stepS cfg s op).sh := by
   cases op with
   | adv ms => exact h
+  | incr => exact h
+  | inner sc r => exact h
   | probe =>
     unfold HistOK at h ⊢
     simp [stepS, emit, linkUp_append, upStep]
@@ -112,8 +126,9 @@ theorem stepS_hist {cfg : Cfg} {s : State} (op : Op) (h : HistOK cfg s.sh) : His
     split
     · exact h
     · unfold HistOK at h ⊢
-      simp [startCall, emit, linkUp_append, upStep]
-      exact h
+      cases hra : readyAns s.sh <;>
+      · simp [startCall, emit, popScript, linkUp_append, upStep]
+        exact h
   | poll c obs =>
     simp only [stepS]
     split
